@@ -2,6 +2,7 @@ import Comdex.Lemmas.LendLtv
 import Comdex.Lemmas.LendAccrual
 import Comdex.Lemmas.LendIds
 import Comdex.Lemmas.LendReserve
+import Comdex.Lemmas.LendMigrate
 /-!
 # C08 — Lending books balance and borrowing is bounded by loan-to-value
 
@@ -1063,5 +1064,77 @@ theorem reserve_ledger_poolsweep_counterexample :
     ¬ resLedgerOn cfgD bankD (run cfgD (init cfgD bankD pricesD) opsD) [3] = true ∧
     (run cfgD (init cfgD bankD pricesD) opsD).delPools = [2] ∧ (run cfgD (init cfgD bankD pricesD) opsD).depPending = [2] ∧
     (step cfgD (run cfgD (init cfgD bankD pricesD) opsD) .beginBlock).toBool = false := by decide
+
+/-! ## The store migration 2 → 3 of x/lend, run in the middle of a history -/
+
+/-- **The books survive the migration** — for every configuration, genesis, history before and history after the migration (the
+messages after it run under the migrated configuration): the borrowed totals (variable and stable) and the id lists are right at the
+end; so is the lent total when every hand-over of both parts is clean. The migration touches no position, total, balance or record. -/
+theorem books_across_migration (cfg : Cfg) (bank : Bank) (prices : List (Nat × Nat)) (ops1 ops2 : List Op) :
+    let s1 := run cfg (init cfg bank prices) ops1
+    let s2 := run (migrateCfg cfg) s1 ops2
+    TotalBorrowedEq (migrateCfg cfg) s2 ∧ TotalStableEq (migrateCfg cfg) s2 ∧ IdsOk (migrateCfg cfg) s2 ∧
+      (CleanRun cfg (init cfg bank prices) ops1 → CleanRun (migrateCfg cfg) s1 ops2 → TotalLendEq s2) := by
+  intro s1 s2
+  have c1 : CoreS cfg s1 := run_core ops1 (init_core cfg bank prices)
+  have i1 : IdsS cfg s1 := run_ids ops1 (init_core cfg bank prices) (init_ids cfg bank prices)
+  have c2 : CoreS (migrateCfg cfg) s2 := run_core ops2 (migrate_core c1)
+  have i2 : IdsS (migrateCfg cfg) s2 := run_ids ops2 (migrate_core c1) (migrate_ids i1)
+  refine ⟨fun st hst => c2.tbs false st hst, fun st hst => c2.tbs true st hst, i2.ok, fun h1 h2 => ?_⟩
+  exact run_totalLend ops2 (migrate_core c1) (run_totalLend ops1 (init_core cfg bank prices) (init_totalLend cfg bank prices) h1) h2
+
+/-- **The reserve ledger survives the migration** (same side conditions as `reserve_ledger` for both parts) -/
+theorem reserve_ledger_across_migration (cfg : Cfg) (ok : CfgOk cfg) (bank : Bank) (prices : List (Nat × Nat)) (ops1 ops2 : List Op)
+    (h1 : SignersOk cfg ops1) (h2 : SignersOk (migrateCfg cfg) ops2) :
+    ResLedger (migrateCfg cfg) bank (run (migrateCfg cfg) (run cfg (init cfg bank prices) ops1) ops2) := by
+  obtain ⟨l1, o1⟩ := run_ledger (bank0 := bank) ok ops1 h1 (init_own cfg bank prices) (fun a => by simp [init, getResv, Resv.flow])
+  exact (run_ledger (migrate_cfgOk ok) ops2 h2 (migrate_own o1) (migrate_ledger l1)).1
+
+theorem mem_migratePairs {c : Bool} {ps : List PairCfg} {p : PairCfg} (h : p ∈ migratePairs c ps) : p.eMode = false := by
+  induction ps generalizing c with
+  | nil => cases h
+  | cons q ps ih =>
+    simp only [migratePairs, List.mem_cons] at h
+    rcases h with rfl | h
+    · rfl
+    · exact ih h
+
+theorem mem_migrateRates {c : Bool} {rs : List RatesCfg} {r : RatesCfg} (h : r ∈ migrateRates c rs) :
+    r.isolated = false ∧ r.eLtv = 0 ∧ r.eLiqPenalty = 0 := by
+  induction rs generalizing c with
+  | nil => cases h
+  | cons q rs ih =>
+    simp only [migrateRates, List.mem_cons] at h
+    rcases h with rfl | h
+    · exact ⟨rfl, rfl, rfl⟩
+    · exact ih h
+
+/-- **What the migration switches off**: afterwards no pair is an e-mode pair, no asset is isolated collateral, every e-LTV and
+e-penalty is zero — a borrow opened above the normal LTV on an e-mode pair is over its limit from that block on. -/
+theorem migration_switches_off (cfg : Cfg) :
+    (∀ p ∈ (migrateCfg cfg).pairs, p.eMode = false) ∧ (∀ r ∈ (migrateCfg cfg).rates, r.isolated = false ∧ r.eLtv = 0 ∧ r.eLiqPenalty = 0) :=
+  ⟨fun _ h => mem_migratePairs h, fun _ h => mem_migrateRates h⟩
+
+/-- **Counterexample (migration leak)**: two asset-rates records, the first with stable borrowing enabled, the second without; two
+pairs, the first cross-pool, the second same-pool. After `Migrate2to3` the second asset has stable borrowing ENABLED and the second
+pair is CROSS-POOL: the loop decodes every record into one variable that `Unmarshal` does not reset, so a `false` (absent on the wire)
+keeps the previous record's `true` (migrate.go:152-164, 189-205). Written record by record (`migrateCfgSpec`) both stay `false`. -/
+theorem migration_leak_counterexample :
+    let cfg : Cfg := { rates := [⟨3, 800000000000000000, 0, 7, false, true, 0, 0⟩, ⟨4, 600000000000000000, 0, 8, false, false, 0, 0⟩],
+                       pairs := [⟨1, 3, 4, true, 2, false⟩, ⟨2, 4, 3, false, 2, false⟩] }
+    ((migrateCfg cfg).rates.map fun r => (r.asset, r.stableOk)) = [(3, true), (4, true)] ∧
+    ((migrateCfgSpec cfg).rates.map fun r => (r.asset, r.stableOk)) = [(3, true), (4, false)] ∧
+    ((migrateCfg cfg).pairs.map fun p => (p.id, p.inter)) = [(1, true), (2, true)] ∧
+    ((migrateCfgSpec cfg).pairs.map fun p => (p.id, p.inter)) = [(1, true), (2, false)] := by decide
+
+/-- non-vacuity (`books_across_migration`): a borrow on an e-mode pair before the migration, a repayment after it -/
+example :
+    let cfg : Cfg := { cfgH with pairs := [⟨1, 1, 2, false, 1, true⟩],
+                                 rates := [⟨1, 500000000000000000, 900000000000000000, 3, false, false, 0, 0⟩, ⟨2, 500000000000000000, 0, 4, false, false, 0, 0⟩] }
+    allAccepted cfg (init cfg bankH pricesH) [.lend 1 1 1 100 1 1 0, .borrow 1 1 1 false 3 60 2 50 .err .err] = true ∧
+    allAccepted (migrateCfg cfg) (run cfg (init cfg bankH pricesH) [.lend 1 1 1 100 1 1 0, .borrow 1 1 1 false 3 60 2 50 .err .err])
+      [.repay 1 1 2 5 (.val 0 0), .draw 1 1 2 1 (.val 0 0)] = false ∧
+    (step (migrateCfg cfg) (run cfg (init cfg bankH pricesH) [.lend 1 1 1 100 1 1 0, .borrow 1 1 1 false 3 60 2 50 .err .err]) (.repay 1 1 2 5 (.val 0 0))).toBool = true := by
+  decide
 
 end Comdex.C08
